@@ -162,3 +162,7 @@ where
         0.
     }
 }
+
+#[cfg(kani)]
+#[path = "/verif/kani/rosomaxa/min_variation_proofs.rs"]
+mod verif_kani_proofs;
